@@ -11,7 +11,9 @@
         decoder, ALPH model) to a report with the declared dimensions, alpha iff
         an ALPH chunk was given, the decoded alpha plane, the declared first
         partition length within the data, and the samples the specification
-        decoder reconstructs = the reconstruction the syntax denotes.
+        decoder reconstructs = the reconstruction the syntax denotes (the
+        decoder never has to read beyond the end of a partition:
+        Vp8FrameRT.vp8_emit_decode_full).
     Composition of Vp8FrameRT.vp8_emit_decode (C04/C06),
     ConformVp8Hdr (frame tag / picture header), Vp8BoolEnc (output is bytes),
     WriterTheorems.metadata_roundtrip (C15) and the ParserSpec -> RiffGrammar
@@ -170,12 +172,13 @@ Definition lossy_file_conformant_statement : Prop :=
       CF.r_aplane rep = (if PM.len alpha >? 0 then Some plane else None) /\
       0 <= CF.r_part0 rep < 2^19 /\
       VS.dc_filtered r = snd (FR.reconstruct VS.rfc_quirks s) /\
-      CF.r_yuv rep = (if VS.dc_past_end r then None else Some (yuv_of (VS.dc_filtered r))).
+      VS.dc_past_end r = false /\
+      CF.r_yuv rep = Some (yuv_of (snd (FR.reconstruct VS.rfc_quirks s))).
 
 Theorem lossy_file_conformant : lossy_file_conformant_statement.
 Proof.
   intros s bs alpha plane icc exif xmp file w h Hwf Hemit Hal Hdec Hs Hic Hex Hxm Hw.
-  destruct (FR.vp8_emit_decode _ _ _ Hwf Hemit) as (r & Hr & Hrw & Hrh & _ & _ & Hrf).
+  destruct (FR.vp8_emit_decode_full _ _ _ Hwf Hemit) as (r & Hr & Hrw & Hrh & _ & _ & Hrf & Hpe).
   fold w in Hrw. fold h in Hrh.
   destruct Hwf as (_ & Hwr & Hhr & _ & _ & _ & _ & Hok0 & Hoks). fold w in Hwr. fold h in Hhr.
   (* the frame bytes *)
@@ -242,7 +245,7 @@ Proof.
     unfold MP.opt_blob. destruct (Z.gtb_spec (PM.len alpha) 0) as [Hpos|Hz]; [|reflexivity].
     rewrite (Hdec ltac:(lia)). reflexivity.
   - split; [exact Hr|]. cbn [CF.r_wf CF.r_lossless CF.r_w CF.r_h CF.r_alpha CF.r_aplane CF.r_part0 CF.r_yuv].
-    repeat split; try reflexivity; try lia. exact Hrf.
+    rewrite Hpe, Hrf. repeat split; try reflexivity; try lia.
 Qed.
 
 (** ** With the ALPH chunk the encoder writes at AlphaQuality 100 (lossless coding)
